@@ -306,14 +306,18 @@ def evaluate(pid, tier, seed):
         entries.append((lbl, TJ.parse(text), read_view(ro), {'kind': 'access', 'ro_text': text, 'label': lbl}))
     # every state of live histories, read on the live object after each step
     n_hist = 60 if tier == 'quick' else 3000
-    for h in hist_run.run_histories([seed * 3571 + 11 * k for k in range(n_hist)],
-                                    max_steps=10 if tier == 'quick' else 30, views=True):
+    hists = hist_run.run_histories([seed * 3571 + 11 * k for k in range(n_hist)],
+                                   max_steps=10 if tier == 'quick' else 30, views=True, live=True)
+    # scripted: a message object added, its content edited in the running order, the same object added again
+    hists += hist_run.run_reuse_histories(views=True)
+    for h in hists:
         for st in h['steps']:
             if 'view' in st:
                 entries.append((f'hist seed={h["seed"]} after step {st["k"]} ({st["cls"]})', st['obs']['ro'], st['view'],
                                 {'kind': 'access', 'ro_text': TJ.to_text(st['obs']['ro']),
                                  'label': f'state of history seed={h["seed"]} after step {st["k"]}',
-                                 'history': {'seed': h['seed'], 'docs': h['docs'][:st['k'] + 2]}}))
+                                 'history': {'seed': h['seed'], 'docs': h['docs'][:st['k'] + 2]},
+                                 'live_history': hist_run.live_script(h, st['k'])}))
     reqs = [{'op': 'access', 'ro': t, 'impl': v} for (_, t, v, _) in entries]
     resps = lean.run_batch(reqs)
     for (lbl, tree, view, rec), r in zip(entries, resps):
@@ -392,9 +396,15 @@ def spaces_check(oc):
 
 def replay(pid, fl):
     from . import impl, lean
-    ro = impl.load(fl['ro_text'])
+    if 'live_history' in fl:
+        # a state of a live history (message objects may have been added twice): rebuild the live object
+        ro = hist_run.replay_live(fl['live_history'], want_object=True)
+        tree = TJ.to_tree(ro.xml)
+    else:
+        ro = impl.load(fl['ro_text'])
+        tree = TJ.parse(fl['ro_text'])
     view = read_view(ro)
-    r = lean.run_batch([{'op': 'access', 'ro': TJ.parse(fl['ro_text']), 'impl': view}])[0]
+    r = lean.run_batch([{'op': 'access', 'ro': tree, 'impl': view}])[0]
     import json
     print(json.dumps({'impl': project(pid, view), 'model': project(pid, r['model']), 'dom': r['dom'], 'holds': r.get('holds')},
                      indent=1, ensure_ascii=False)[:4000])
